@@ -140,6 +140,16 @@ def entry_configs(chk, reps, total):
     return cfgs
 
 
+def mixed_fatal_configs(chk, reps, total):
+    """NOT in the default tiers (enable with VERIF_C02_MIXED_FATAL=1; awaiting the coordinator's decision): direct process()
+    callers and fatal-level macro callers on the same installed synchronous Logger.  The translated family
+    {direct process(), fatal macro} is not guarded by one mutex (static.direct_and_fatal_guarded = false, theorem
+    C02_direct_call_vs_fatal_flush_refuted): Sink::flush() runs under the Logger mutex only, Sink::send() of a direct
+    caller under the handler mutex only."""
+    return [{'mode': 'mixed+fatal', 'n': n, 'per': max(3, total // n), 'seed': chk.rng.randrange(1, 2 ** 31),
+             'perturb': chk.rng.choice([0, 1, 2]), 'dup': 0, 'stall': 0} for _ in range(reps) for n in (2, 4, 8)]
+
+
 def stall_configs(chk, reps, ms):
     """a handler of long duration: one message keeps the pipeline busy for `ms` while the other producers keep logging"""
     return [{'mode': mode, 'n': 4, 'per': 60, 'seed': chk.rng.randrange(1, 2 ** 31), 'perturb': 1, 'dup': 0, 'stall': ms}
@@ -173,6 +183,11 @@ def run():
     thorough = chk.tier == 'thorough'
     total = 2000
     cfgs = stall_configs(chk, 1, 1300) + entry_configs(chk, 6 if thorough else 2, total) + gen_configs(chk, 17 if thorough else 4, total)
+    mixed_fatal = os.environ.get('VERIF_C02_MIXED_FATAL') == '1'
+    if mixed_fatal:
+        cfgs += mixed_fatal_configs(chk, 2, total)
+    rcs, static_out, _ = vlib.sh([model, 'static'], inp=b'', timeout=30)
+    static = dict(kv.split('=') for kv in static_out.split()) if rcs == 0 else {'error': 'model static report failed'}
     if not proof_ok:
         # the skeleton no longer satisfies the obligation (or a proof broke): widen the schedule search
         cfgs += gen_configs(chk, 5, total, heavy=True) + entry_configs(chk, 4, total) + stall_configs(chk, 1, 2600)
@@ -215,6 +230,7 @@ def run():
                 chk.fail('%s: %s (mode %s, %d threads x %d messages)' % (b[0], b[1], cfg['mode'], cfg['n'], cfg['per']),
                          dict(cfg, kind=b[0], detail=b[1], violations_in_this_run=len(bad), acceptor=mv,
                               first_rejected_event=at, schedule_up_to_first_rejected_event=ex_toks[max(0, at - 30):at + 1],
+                              trace_around_violation=toks[max(0, b[2] - 12):b[2] + 6],
                               full_trace_events=len(toks), header=hdr), kind=b[0])
                 reported += 1
         elif mv['accept'] == 0:
@@ -255,10 +271,11 @@ def run():
                             'non-trivial = at least two deliveries per producer' % (len(results), total),
                     'events_recorded': n_events, 'deliveries': n_deliv, 'producer_switches_between_consecutive_deliveries': switches,
                     'threads_histogram': {str(n): sum(1 for r in results if r[0]['n'] == n) for n in NS},
-                    'mode_histogram': {m: sum(1 for r in results if r[0]['mode'] == m) for m in ('logger', 'bare', 'mixed', 'fatal')},
+                    'mode_histogram': {m: sum(1 for r in results if r[0]['mode'] == m) for m in ('logger', 'bare', 'mixed', 'fatal', 'mixed+fatal')},
                     'flush_intervals_recorded': sum(sum(1 for t in r[3] if t[0] == 'F') for r in results),
                     'perturb_histogram': {str(p): sum(1 for r in results if r[0]['perturb'] == p) for p in range(4)},
                     'dupfilter_runs': sum(1 for r in results if r[0]['dup']), 'long_handler_runs': sum(1 for r in results if r[0].get('stall')),
+                    'static': static, 'mixed_plus_fatal_scenario_enabled': mixed_fatal,
                     'violation_kinds': kinds, 'acceptor_vs_oracle_disagreements': disagreements, 'tsan': tsan})
     chk.samples = [{'config': r[0], 'header': r[2], 'first_events': r[3][:12]} for r in results[:3]]
     return chk.finish()
